@@ -144,6 +144,11 @@ impl HistGen {
             self.fresh += 1;
             format!("X{}", self.fresh)
         } else {
+            // rarely a name longer than 127 bytes (two-byte length prefix on the wire), with blanks and multi-byte characters inside
+            if self.rng.chance(1, 25) {
+                self.fresh += 1;
+                return format!("Dimension {} {}", self.fresh, "é-long name ".repeat(11)).trim_end().to_string();
+            }
             cands[self.rng.below(cands.len())].to_string()
         }
     }
@@ -161,6 +166,10 @@ impl HistGen {
             self.fresh += 1;
             format!("Y{}", self.fresh)
         } else {
+            if self.rng.chance(1, 25) {
+                self.fresh += 1;
+                return format!("Attribute {} {}", self.fresh, "très long nom ".repeat(10)).trim_end().to_string();
+            }
             cands[self.rng.below(cands.len())].to_string()
         }
     }
